@@ -1,6 +1,7 @@
 package v2
 
 import (
+	"bytes"
 	"encoding/binary"
 	"errors"
 	"io"
@@ -151,6 +152,13 @@ func (fw *FileWriter) openExistingFile() error {
 		return err
 	}
 
+	// A header of zero bytes is a file whose size reached the disk before its data did (power
+	// loss while it was being created): had anything been synced the header would be there too.
+	if bytes.Count(headerBuf, []byte{0}) == len(headerBuf) {
+		file.Close()
+		return fw.startOver()
+	}
+
 	fw.header = &FileHeader{}
 	if err := fw.header.Deserialize(headerBuf); err != nil {
 		file.Close()
@@ -161,9 +169,10 @@ func (fw *FileWriter) openExistingFile() error {
 		return fw.createNewFile()
 	}
 
-	// Cut a torn tail: walk the block headers and stop at the first block that is
-	// not entirely there; appending behind it would hide every later block.
-	end, bh := fw.header.DataStartOffset(), make([]byte, BlockHeaderSize)
+	// Cut a torn tail: walk the block headers and stop at the first block that is not entirely
+	// there (a zero size field is the zero-filled tail a power loss leaves when the file size
+	// outlived the data); appending behind it would hide every later block.
+	end, last, bh := fw.header.DataStartOffset(), int64(-1), make([]byte, BlockHeaderSize)
 	for {
 		if _, err := file.ReadAt(bh, end); err != nil {
 			break
@@ -172,7 +181,14 @@ func (fw *FileWriter) openExistingFile() error {
 		if next > info.Size() {
 			break
 		}
-		end = next
+		if next == end+BlockHeaderSize { // size field 0
+			break
+		}
+		last, end = end, next
+	}
+	// The last block may have its size on disk but not (all of) its data: check it.
+	if last >= 0 && !blockIntactAt(file, last, end) {
+		end = last
 	}
 	if end < info.Size() {
 		if err := file.Truncate(end); err != nil {
@@ -192,6 +208,19 @@ func (fw *FileWriter) openExistingFile() error {
 	}
 
 	return nil
+}
+
+// startOver replaces a file nothing durable can be in by a fresh one.
+func (fw *FileWriter) startOver() error { return fw.createNewFile() }
+
+// blockIntactAt reports whether the block stored in [start, end) of file has the payload its
+// header's checksum was computed for.
+func blockIntactAt(file *os.File, start, end int64) bool {
+	buf := make([]byte, end-start)
+	if _, err := file.ReadAt(buf, start); err != nil {
+		return false
+	}
+	return ValidateChecksum(buf[BlockHeaderSize:], binary.LittleEndian.Uint32(buf[10:14]))
 }
 
 // validateEntry rejects entries the on-disk format cannot represent. The key
